@@ -73,6 +73,29 @@ Proof.
 Qed.
 Print Assumptions C13_set_functions_bytes_arrays.
 
+(* every combination of argument forms: an argument is the encoding of the value or a JSON text that parses to it
+   (the code parses and re-encodes a text first) *)
+Theorem C13_set_functions_bytes_all_forms : forall t u a b buf, wfb a = true -> wfb b = true -> stands_for t a -> stands_for u b ->
+  (wf_size (array_distinct_t a) = true -> array_distinct_w t buf = Ok (buf ++ enc (array_distinct_t a))) /\
+  (wf_size (array_intersection_t a b) = true -> array_intersection_w t u buf = Ok (buf ++ enc (array_intersection_t a b))) /\
+  (wf_size (array_except_t a b) = true -> array_except_w t u buf = Ok (buf ++ enc (array_except_t a b))) /\
+  array_overlap_w t u = Ok (array_overlap_t a b).
+Proof.
+  intros t u a b buf Wa Wb Sa Sb. repeat split.
+  - intros H. apply array_distinct_w_forms; assumption.
+  - intros H. apply array_intersection_w_forms; assumption.
+  - intros H. apply array_except_w_forms; assumption.
+  - apply array_overlap_w_forms; assumption.
+Qed.
+Print Assumptions C13_set_functions_bytes_all_forms.
+
+(* the iterator fuel of the model is enough for every buffer, valid or not *)
+Theorem C13_fuel_never_exhausted : forall bs1 bs2 buf,
+  array_distinct_b bs1 buf <> Err EFuel /\ array_intersection_b bs1 bs2 buf <> Err EFuel /\
+  array_except_b bs1 bs2 buf <> Err EFuel /\ array_overlap_b bs1 bs2 <> Err EFuel.
+Proof. exact set_walkers_fuel. Qed.
+Print Assumptions C13_fuel_never_exhausted.
+
 (* "same element" at byte level -- equal (JEntry, payload bytes), the key of the BTreeSet / BTreeMap -- is the identity
    of SetOps.v, and for well-formed values that is: the same JSON value once both are in decoded form *)
 Theorem C13_byte_identity : forall x y, wfb x = true -> wfb y = true ->
